@@ -23,6 +23,8 @@ pub struct TgObs {
     pub paths: Vec<Obs<Vec<String>>>,
     pub syn_ok: bool,
     pub upcasts: Vec<(u32, Option<usize>, Obs<Vec<String>>)>,
+    /// entry paths after `ensure_unique_type_paths` on a copy of the registry
+    pub dedup: Obs<Vec<Vec<String>>>,
 }
 
 /// standalone struct built through the public API from a field list (C18)
@@ -91,12 +93,26 @@ pub fn observe_tg(reg: &PortableRegistry, spec: &SettingsSpec) -> TgObs {
             _ => {}
         }
     }
-    TgObs { outs, gen, paths, syn_ok, upcasts }
+    let dedup = {
+        let mut c = reg.clone();
+        match std::panic::catch_unwind(move || {
+            let e = scale_typegen::utils::ensure_unique_type_paths(&mut c);
+            (e, c)
+        }) {
+            Ok((Ok(()), c)) => Obs::Ok(c.types.iter().map(|t| t.ty.path.segments.clone()).collect()),
+            Ok((Err(e), _)) => {
+                let (k, n, m) = crate::obs::of_typegen_error(&e);
+                Obs::Err(k, n, m)
+            }
+            Err(_) => Obs::Panic,
+        }
+    };
+    TgObs { outs, gen, paths, syn_ok, upcasts, dedup }
 }
 
 pub fn coq_case(tag: &str, reg: &PortableRegistry, spec: &SettingsSpec, o: &TgObs, expect: &Option<(String, Vec<u128>)>) -> String {
     format!(
-        "(mk_tg {} {} {} {} {} {} {} {} {})",
+        "(mk_tg {} {} {} {} {} {} {} {} {} {})",
         crate::coq::cstr(tag),
         crate::regprint::registry(reg),
         sets::cspec(spec),
@@ -113,7 +129,8 @@ pub fn coq_case(tag: &str, reg: &PortableRegistry, spec: &SettingsSpec, o: &TgOb
         match expect {
             None => "None".to_string(),
             Some((k, n)) => format!("(Some ({}, {}))", crate::coq::cstr(k), clist(n.iter().map(|x| crate::coq::cn(*x)))),
-        }
+        },
+        o.dedup.coq(|p| clist(p.iter().map(|s| clist(s.iter().map(|x| crate::coq::cstr(x))))))
     )
 }
 
